@@ -197,3 +197,11 @@ package maintenance
 //@     invariant dbRotations == old(dbRotations) + rangeindex + 1
 //@     invariant !old(dbRotationFailed) ==> !dbRotationFailed
 //@     exit every-database-rotated: dbRotations == old(dbRotations) + len(base)
+
+// The logs skip-index marker is recorded only after the index was added: when
+// putSetting is reached with an index configured, the last statement the database
+// executed successfully is that ADD INDEX (a failed ALTER must stop the run, so that the
+// next run does it again - the old index is already dropped by then).
+//@ func UpdateLogsIndex [C19]
+//@   flag checks=-index,-assert
+//@   at putSetting$ marker-only-after-the-index-was-added: newIndex != "" ==> dbStmt[dbN - 1] == "ALTER TABLE samples_v4 ADD INDEX _logs_idx string TYPE " + idxName
